@@ -42,6 +42,10 @@ func init() {
 		runSrv6(c)
 		rule6 := c.Extra["rule"]
 		runPlugins(c) // the built-in handlers: a nil response only ever together with stop
+		c.SetCases(asmCasesHdr, "AsmRun.mismatches")
+		c.shard = 12
+		runStartRandom(c, c.Scale(6, 60)) // chains loaded by server.Start: once, in order, behind every listener
+		runConfig(c) // the plugin lists LoadPlugins is given come from config.Load: exactly the listed items, in file order
 		c.Extra["rule"] = fmt.Sprint(rule) + " || DHCPv6: " + fmt.Sprint(rule6) + " || built-in plugins: " + fmt.Sprint(c.Extra["rule"])
 	}
 	runners["C15"] = func(c *Ctx) {
@@ -694,6 +698,17 @@ func randReq4(c *Ctx) req4spec {
 		}
 		code := []uint8{80, 80, 50, 51, 57, 60, 77, 93, 118, 255 - 1}[r.Intn(10)]
 		s.extra[code] = [][]byte{{}, {1}, {10, 0, 0, 9}, {0, 0, 14, 16}}[r.Intn(4)]
+	}
+	if r.Pct(8) {
+		// a small maximum message size against a long relay-agent / client identifier: the echo is not optional
+		if s.extra == nil {
+			s.extra = map[uint8][]byte{}
+		}
+		s.extra[57] = [][]byte{{2, 64}, {2, 65}, {1, 44}, {5, 220}}[r.Intn(4)]
+		s.opt82 = r.Bytes([]int{200, 255, 300, 520}[r.Intn(4)])
+		if r.Bool() {
+			s.opt61 = r.Bytes(1 + r.Intn(250))
+		}
 	}
 	return s
 }
